@@ -93,6 +93,7 @@ PROPS["C19"] = dict(
         job("exhaustive-constraints", "^TestExhaustiveConstraints$", (2, 16), (1, 1), (600, 3000), pkg="c19h"),
         job("random-constraints", "^TestRandomConstraints$", (1, 4), (3000, 30000), (600, 3000), pkg="c19h"),
         job("concurrent", "^TestConcurrent$", (1, 8), (300, 3000), (600, 3000), race=True, race_attributed=True),
+        job("linearizable", "^TestLinearizable$", (1, 8), (250, 3000), (600, 3000)),
     ],
 )
 PROPS["C10"] = dict(
